@@ -256,12 +256,12 @@ open Osmium.XmlFmt in
     `dataLevel … inChange = true`; outside the domain.) -/
 theorem xml_roundtrip_changeset (o : Opts) (obj : Object) (h : XmlChangesetDom obj) (st : RSt) (p : Ctx)
     (hp : p = Ctx.osm ∨ p = Ctx.osmChange) (rest : List Ctx) (hs : st.stack = p :: rest) (hc : st.cur = none)
-    (hct : st.commentText = []) :
+    (hct : st.commentText = []) (hcp : st.commentPending = false) :
     ∃ ps evs, objectPieces o obj = .ok ps ∧ eventsOf ps = some evs ∧
       runEvents {} evs st = .ok { markDone st with out := XmlFmt.project o obj :: st.out } := by
   cases obj with
   | changeset id ca cl nc ncm uid user bl tr tags cs =>
-    obtain ⟨ps, hw, hr⟩ := changeset_rt o id ca cl nc ncm uid user bl tr tags cs h.ok st p hp rest hs hc hct
+    obtain ⟨ps, hw, hr⟩ := changeset_rt o id ca cl nc ncm uid user bl tr tags cs h.ok st p hp rest hs hc hct hcp
     obtain ⟨evs, he, hrun⟩ := eventsOf_of_runPieces ps st _ hr
     exact ⟨ps, evs, hw, he, hrun⟩
   | node m l => exact absurd h (by simp [XmlChangesetDom])
